@@ -333,6 +333,15 @@ def _is_exact(case):
     return bool(np.all(np.isfinite(a)) and np.all(a == np.floor(a)) and np.all(np.abs(a) < 2 ** 20))
 
 
+def _key_reflects(case):
+    """weight 0 and image values multiples of 2^-10 below 2^20: every path cost of at most m*n steps is a multiple of
+    2^-10 below 2^52*2^-10, its dropped mantissa bit is 0 (hypothesis of C03_dijkstra_optimal_dropped_when_key_reflects)"""
+    if case["weight"] not in (0, 0x8000000000000000):
+        return False
+    a = bits_arr(case["image"]) * 1024.0
+    return bool(np.all(np.isfinite(a)) and np.all(a == np.floor(a)) and np.all(np.abs(a) < 2 ** 30))
+
+
 def _well_formed(case, out):
     m, n = case["m"], case["n"]
     return (not _bad(out) and out.get("shape") == [m, n] and len(out["lo"]) == m and len(out["d"]) == m
@@ -444,8 +453,8 @@ def attribute(ctx, case, out, clause):
     prop_check on this input (hint computed inside Coq)."""
     if not _well_formed(case, out) or "prop_check" not in (clause or ""):
         return None
-    if _is_exact(case):
-        # C03_dijkstra_optimal_dropped_when_key_reflects: integer image, weight 0, path sums far below 2^52 -
+    if _key_reflects(case):
+        # C03_dijkstra_optimal_dropped_when_key_reflects: weight 0, image in multiples of 2^-10, path sums far below 2^42 -
         # every occurring distance has dropped bit 0, the loop as written is optimal: F7 cannot be the cause
         return None
     e = evaluate_cases(ctx, [case], [out])[0]
@@ -493,6 +502,16 @@ def _image(rng, m, n, kind):
         return rng.rand(m, n) if rng.rand() < 0.5 else rng.rand(m, n).astype(np.float32).astype(np.float64)
     if kind == "int":
         return rng.randint(0, int(rng.choice([2, 4, 50])), (m, n)).astype(float)
+    if kind == "slope":
+        # iso-lines along one diagonal: steps along it cost (almost) nothing in D, orthogonal steps do
+        ii, jj = np.meshgrid(np.arange(m), np.arange(n), indexing="ij")
+        c = float(rng.choice([0.125, 0.25, 1.0, 3.0]))
+        img = c * ((ii + jj) if rng.rand() < 0.5 else np.abs(ii - jj)).astype(float)
+        if rng.rand() < 0.5:
+            img = img + rng.randint(0, 3, (m, n)) / 8.0
+        return img
+    if kind == "tenths":
+        return rng.randint(0, 60, (m, n)) / 10.0
     # blocky tenths: many equal, inexactly summed costs (the F7 class)
     b = rng.randint(0, 3, ((m + 2) // 3, (n + 2) // 3)) * float(rng.choice([0.1, 0.3, 1 / 3.0, 0.7]))
     img = np.repeat(np.repeat(b, 3, 0), 3, 1)[:m, :n].copy()
@@ -520,10 +539,61 @@ def _labels(rng, m, n, kind):
             lab[rng.randint(m), rng.randint(n)] = 1
     elif kind == "dense":
         lab = (rng.rand(m, n) < 0.45) * rng.randint(1, 6, (m, n))
+    elif kind == "objects":
+        lab = _objects(rng, m, n)
     elif kind == "numbering":           # sparse numbering: few objects, label numbers far apart
         lab = (rng.rand(m, n) < 0.12) * rng.choice([3, 17, 100, 101, 1000], size=(m, n))
         if not lab.any():
             lab[rng.randint(m), rng.randint(n)] = 17
+    return lab
+
+
+SHAPES = {
+    "plus": [(0, 0), (-1, 0), (1, 0), (0, -1), (0, 1)],
+    "bigplus": [(0, 0), (-1, 0), (1, 0), (0, -1), (0, 1), (-2, 0), (2, 0), (0, -2), (0, 2)],
+    "L": [(0, 0), (1, 0), (2, 0), (2, 1)],
+    "T": [(0, 0), (0, 1), (0, 2), (1, 1), (2, 1)],
+    "diag": [(0, 0), (1, 1), (2, 2)],
+    "antidiag": [(0, 2), (1, 1), (2, 0)],
+    "ring": [(0, 0), (0, 1), (0, 2), (1, 0), (1, 2), (2, 0), (2, 1), (2, 2)],
+    "block": [(0, 0), (0, 1), (1, 0), (1, 1)],
+    "block3": [(i, j) for i in range(3) for j in range(3)],
+    "hole4": [(i, j) for i in range(4) for j in range(4) if (i, j) not in ((1, 1), (2, 2))],
+    "zig": [(0, 0), (0, 1), (1, 1), (1, 2), (2, 2)],
+}
+
+
+def _objects(rng, m, n):
+    """multi-pixel seed OBJECTS of varied shapes (plus, L, T, diagonal chains, rings, seeds with holes, noise blobs,
+    two different seeds with interlocking shapes): pixels enclosed by their own object but with a non-seed
+    diagonal neighbour, concave corners, etc."""
+    lab = np.zeros((m, n), int)
+
+    def put(cells, oi, oj, l):
+        for di, dj in cells:
+            i, j = oi + di, oj + dj
+            if 0 <= i < m and 0 <= j < n:
+                lab[i, j] = l
+    k = int(rng.choice([1, 1, 2, 3]))
+    names = sorted(SHAPES)
+    for o in range(k):
+        u = rng.rand()
+        oi, oj = int(rng.randint(0, max(1, m - 2))), int(rng.randint(0, max(1, n - 2)))
+        l = int(rng.randint(1, 4))
+        if u < 0.62:
+            cells = SHAPES[names[rng.randint(len(names))]]
+            if rng.rand() < 0.3:
+                cells = [(b, a) for a, b in cells]
+            put(cells, oi + (2 if min(a for a, _ in cells) < 0 else 0), oj + (2 if min(b for _, b in cells) < 0 else 0), l)
+        elif u < 0.82:                      # blob: thresholded smoothed noise
+            z = rng.rand(m + 2, n + 2)
+            z = (z[:-2, :-2] + z[1:-1, 1:-1] + z[2:, 2:] + z[1:-1, :-2] + z[:-2, 1:-1]) / 5.0
+            lab[(z > np.percentile(z, 78)) & (lab == 0)] = l
+        else:                               # two different seeds with interlocking L shapes
+            put(SHAPES["L"], oi, oj, l)
+            put([(0, 1), (1, 1), (0, 2)], oi, oj, l % 3 + 1)
+    if not lab.any():
+        put(SHAPES["plus"], m // 2, n // 2, 1)
     return lab
 
 
@@ -600,11 +670,16 @@ def _dress(rng, c, img_kind):
 
 def _random_case(rng, mx, force=None):
     m, n = _shape(rng, mx)
-    ik = str(rng.choice(["const", "quant", "dyadic", "rand", "int", "blocky", "blocky"]))
-    lk = str(rng.choice(["none", "one", "adjacent", "sparse", "sparse", "dense", "numbering"], p=[.04, .2, .2, .25, .12, .1, .09]))
+    ik = str(rng.choice(["const", "quant", "dyadic", "rand", "int", "blocky", "blocky", "slope", "tenths"]))
+    lk = str(rng.choice(["none", "one", "adjacent", "sparse", "dense", "numbering", "objects"], p=[.04, .15, .15, .2, .1, .08, .28]))
+    if force and "labels" in force:
+        lk = force["labels"]
+    if lk == "objects":
+        m, n = max(m, int(rng.randint(5, 9))), max(n, int(rng.randint(5, 9)))
+        ik = str(rng.choice(["slope", "slope", "tenths", "rand", "quant", "int", "dyadic"]))
     mk = str(rng.choice(["full", "random", "wall", "bbox:top", "bbox:bottom", "bbox:left", "bbox:right"],
                         p=[.3, .26, .16, .07, .07, .07, .07]))
-    w = [0.0, 2.0 ** -10, 1.0, 1000.0, float(rng.rand() * 3), -1.0, -0.375][rng.choice(7, p=[.22, .15, .2, .12, .21, .05, .05])]
+    w = [0.0, 2.0 ** -10, 1.0, 1000.0, float(rng.rand() * 3), -1.0, -0.375, 0.05][rng.choice(8, p=[.2, .13, .2, .1, .19, .05, .05, .08])]
     if ik == "int" or (ik == "blocky" and rng.rand() < 0.7):
         w = 0.0
     if force:
@@ -693,6 +768,13 @@ def _corpus():
     cases.append(mk_case(np.arange(12.0).reshape(3, 4), [[0, 0, 0, 5], [0, 0, 0, 0], [4, 0, 0, 0]],
                          [[1, 1, 1, 0], [1, 1, 1, 1], [0, 1, 1, 1]], 0.0, "edge:seeds-outside-mask"))
     cases.append(mk_case(np.ones((2, 5)) * 0.1, [[1, 0, 0, 0, 0], [0, 0, 0, 0, 2]], np.ones((2, 5)), 0.1, "edge:inexact"))
+    ii, jj = np.meshgrid(np.arange(5), np.arange(5), indexing="ij")
+    plus = np.zeros((5, 5), int)
+    for di, dj in SHAPES["plus"]:
+        plus[2 + di, 2 + dj] = 1
+    for w in (0.0, 0.05, 1.0):          # seed object = plus; diagonal steps from its centre are the cheapest
+        cases.append(mk_case(np.abs(ii - jj) * 1.0, plus, np.ones((5, 5)), w, "edge:plus-seed-diagonal"))
+        cases.append(mk_case((ii + jj) * 0.5, plus, np.ones((5, 5)), w, "edge:plus-seed-antidiagonal"))
     return cases
 
 
@@ -732,7 +814,10 @@ def generate(ctx):
 
 def search_cases(ctx, rnd):
     rng = ctx.rng
-    cases = [_random_case(rng, 8) for _ in range(150)]
+    cases = [_random_case(rng, 8) for _ in range(120)]
+    for _ in range(120):                # seed objects with decisive diagonals at several weights
+        cases.append(_random_case(rng, 8, force={"labels": "objects", "image": str(rng.choice(["slope", "tenths", "rand"])),
+                                                 "weight": float(rng.choice([0.0, 0.05, 1.0])), "mask": "full"}))
     for _ in range(100):
         m, n = int(rng.randint(3, 8)), int(rng.randint(3, 8))
         cases.append(mk_case(_image(rng, m, n, "int"), _labels(rng, m, n, "adjacent"), _mask(rng, m, n, "full"), 0.0, "search:int"))
